@@ -68,7 +68,7 @@ pub fn compare(make: &dyn Fn(usize) -> String, ks: &[usize], what: &str) -> Case
 pub fn check(ctx: &Ctx) -> i32 {
     let start = Instant::now();
     let mut ev = Evidence::default();
-    ev.rule = "scalable families parameterised by (construct kinds, depth k, number of constructors 2..4, amount of trailing code): k sequenced branch points (conditional, match over c constructors, data-typed match feeding a match = critical pairs, conditional with codata result, conditionals in operand position, a destructor invoked directly on a codata-typed conditional / match, a conditional in a constructor argument or in the argument of a destructor invocation), k nested branch points (conditional / match), k branch points nested in scrutinee position (matches of matches, destructor chains), k nested branch points whose result has type i64 / a four-constructor data type / a list / a codata type with one / with two destructors, sitting in a let binding or directly in a call argument, branching by a conditional or a four-way match, each sequenced kind also with every kind of statement directly following the branch point (call of a top-level definition with one/several arguments, print, constructor + match, destructor invocation, label + jump, arithmetic, closure creation + invocation), and seeded random mixtures of kinds and followers; oracle: for k = 4..8 every stage's size (characters of printed Core, focused Core, AxCut, linearized AxCut; lines of x86-64/AArch64/RISC-V assembly) at depth 2k is at most 16x the size at depth k (degree <= 4; duplication of continuations gives a factor >= 2^k), and all stages finish. Non-trivial: every compiled family; distinct by hash of the family parameters.".into();
+    ev.rule = "scalable families parameterised by (construct kinds, depth k, number of constructors 2..4, amount of trailing code): k sequenced branch points (conditional, match over c constructors, data-typed match feeding a match = critical pairs, conditional with codata result, conditionals in operand position, a destructor invoked directly on a codata-typed conditional / match, a conditional in a constructor argument or in the argument of a destructor invocation), k branch points lifted out of one statement (conditionals / matches as operands of one nested sum, as arguments of nested calls, as constructor arguments of one list; comparisons between variables, against zero, against literals; branches that are bare variables or literals), k nested branch points (conditional / match), k branch points nested in scrutinee position (matches of matches, destructor chains), k nested branch points whose result has type i64 / a four-constructor data type / a list / a codata type with one / with two destructors, sitting in a let binding or directly in a call argument, branching by a conditional or a four-way match, each sequenced kind also with every kind of statement directly following the branch point (call of a top-level definition with one/several arguments, print, constructor + match, destructor invocation, label + jump, arithmetic, closure creation + invocation), and seeded random mixtures of kinds and followers; oracle: for k = 4..8 every stage's size (characters of printed Core, focused Core, AxCut, linearized AxCut; lines of x86-64/AArch64/RISC-V assembly) at depth 2k is at most 16x the size at depth k (degree <= 4; duplication of continuations gives a factor >= 2^k), and all stages finish. Non-trivial: every compiled family; distinct by hash of the family parameters.".into();
     ev.assumptions = vec!["size is measured on the printed form of each stage".into()];
     let mut report = Report { violations: vec![], infra_errors: vec![] };
     let ks: Vec<usize> = ctx.tier.pick(vec![4, 6, 8], vec![4, 5, 6, 7, 8]);
@@ -95,6 +95,9 @@ pub fn check(ctx: &Ctx) -> i32 {
         for fo in 1..FOLLOWS {
             fixed.push((format!("sequenced kind {kind}, follow {fo}"), Box::new(move |k| size_family_with(&[kind], &[fo], k, 3, 2))));
         }
+    }
+    for v in 0..OPERAND_VARIANTS {
+        fixed.push((format!("operand positions variant {v}"), Box::new(move |k| operand_family(v, k))));
     }
     for (name, make) in &fixed {
         let r = compare(&**make, &ks, name);
@@ -170,6 +173,11 @@ pub fn replay(_ctx: &Ctx, sub: &str, bytes: &[u8], case: &serde_json::Value) -> 
             if name == format!("sequenced kind {kind}, follow {fo}") {
                 return compare(&move |k| size_family_with(&[kind], &[fo], k, 3, 2), &[4, 6, 8], name);
             }
+        }
+    }
+    for v in 0..OPERAND_VARIANTS {
+        if name == format!("operand positions variant {v}") {
+            return compare(&move |k| operand_family(v, k), &[4, 6, 8], name);
         }
     }
     CaseResult::Discard("unknown family".into())
